@@ -142,7 +142,15 @@ def run(ctx):
                 if k == "raise":
                     raise Boom()
                 if k == "sample":
-                    a.sample_posterior(3, sampler="importance")
+                    out_ = a.sample_posterior(3, sampler="importance")
+                    # inside any nesting of contexts (pool-mapped callables included) the values stored with the returned points are
+                    # still the user's likelihood and prior AT those points
+                    xs_ = np.asarray(nsutil.to_list(out_.x), float).reshape(-1, 1)
+                    gl = np.asarray(nsutil.to_list(out_.log_likelihood), float).reshape(-1)
+                    gp = np.asarray(nsutil.to_list(out_.log_prior), float).reshape(-1)
+                    if not (np.allclose(gl, tgt.L(xs_), rtol=1e-9, atol=1e-9) and np.allclose(gp, tgt.Pi(xs_), rtol=1e-9, atol=1e-9)):
+                        level_bad.append(("sample_posterior inside " + to_coq(prog)[:60], ["stored log_likelihood / log_prior are not the user's functions at the stored points",
+                                                                                      gl[:2].tolist(), tgt.L(xs_)[:2].tolist()]))
                     return
                 if k == "seq":
                     execp(p[1])
